@@ -113,7 +113,7 @@ def tlc_ok(out):
     return "Model checking completed. No error has been found." in out or "Finished computing" in out and "No error has been found" in out
 
 
-def model_check(work, module, cfg, workers=NCPU, timeout=900, env_extra=None, heap="12g", expect_violation=False):
+def model_check(work, module, cfg, workers=NCPU, timeout=900, env_extra=None, heap="8g", expect_violation=False):
     """exhaustive TLC run of a toy instance / real-size enumeration; a failure is a defect of the spec (Infra)"""
     t0 = time.time()
     rc, out, gen, dist = tlc(work, module, cfg, workers=workers, timeout=timeout, env_extra=env_extra, heap=heap)
@@ -142,7 +142,7 @@ def unq(s):
     return json.loads('"' + s + '"')
 
 
-def validate_trace(work, trace_path, cfg="TraceApi.cfg", module="TraceApi", timeout=1800, heap="6g", trace_b=None):
+def validate_trace(work, trace_path, cfg="TraceApi.cfg", module="TraceApi", timeout=1800, heap="3g", trace_b=None):
     """TLC trace validation of one NDJSON trace; returns dict(fails=[...], events, conjuncts, states, transitions)"""
     envx = {"VERIF_TRACE": trace_path}
     if trace_b:
